@@ -108,6 +108,41 @@ func C16(t *rapid.T) *world.Scenario {
 		// maps, header maps) is read on the caller's goroutine while background work may run
 		sc.Logger = "debug"
 	}
+	if Pct(t, "swrerr", 8) {
+		// A class that is otherwise near zero (three conditions that must coincide): a
+		// stale-while-revalidate hit whose request carries directives in quoted-string form,
+		// whose background validation fails (5xx / error), under a logger that reads what the
+		// records refer to. Everything the foreground shares with the background goroutine
+		// (directive maps, freshness, request clone) is then consulted on both sides.
+		sc.Logger = Pick(t, "swrerr-log", "debug", "debug", "deferred")
+		w := C16Req(t, "swrerr-w", false)
+		w.Method, w.URL = "GET", "http://a.test/c16/a"
+		w.Uncond.Header = [][2]string{H("Date", "$T+0"), H("Cache-Control", "max-age=1, stale-while-revalidate=3600"), H("X-Gen", "g$S"), H("Etag", `"e$S"`)}
+		w.Uncond.LatencyNs = 0
+		sc.Steps = append(sc.Steps, ReqStep(w), SleepStep(2))
+		for ti, th := range sc.Threads {
+			for i, rq := range th {
+				lbl := "swrerr-t" + itoa(int64(ti)) + "-" + itoa(int64(i))
+				if rq.Method != "GET" || !Pct(t, lbl, 70) {
+					continue
+				}
+				rq.URL = "http://a.test/c16/a"
+				var hs [][2]string
+				for _, h := range rq.Header {
+					if h[0] != "Cache-Control" {
+						hs = append(hs, h)
+					}
+				}
+				rq.Header = append(hs, H("Cache-Control", Pick(t, lbl+"-cc", `stale-if-error="30"`, `max-stale="5", stale-if-error="60"`, `min-fresh="0", stale-if-error="5"`, `stale-if-error="0"`, `max-age="3600", stale-if-error="7"`)))
+				switch Weighted(t, lbl+"-cond", 60, 20, 20) {
+				case 0:
+					rq.Cond = &world.Reply{Kind: "resp", Status: Pick(t, lbl+"-5xx", 500, 502, 503, 504), Body: world.Body{Len: 9}, Header: [][2]string{H("Date", "$T+0")}}
+				case 1:
+					rq.Cond = &world.Reply{Kind: "err"}
+				}
+			}
+		}
+	}
 	if Pct(t, "rawkeys", 8) {
 		// Some callers write a field into the header map under a key of their own spelling
 		// ("!": not canonical). Which variant such a request selects is not judged (Go code
